@@ -44,6 +44,7 @@ type sesGen struct {
 	eio3   bool
 	initial bool
 	silenceEnd bool // the scenario ended with a silence longer than every bound
+	rt         bool // real-time scenario (QUIC loopback): WebTransport sessions, no waiting for timers
 }
 
 func (g *sesGen) add(l ...string) { g.lines = append(g.lines, l...) }
@@ -181,6 +182,9 @@ func (g *sesGen) step() {
 			g.add(fmt.Sprintf("ses send s%d t %s 1 0 -", ss.ord, hx([]byte("after-close"))))
 		default:
 			d := []int{1, 50, g.T + 1}[r.rng.IntN(3)]
+			if g.rt {
+				d = 1 + r.rng.IntN(20)
+			}
 			g.add(fmt.Sprintf("ses adv %d", d))
 			g.now += d
 		}
@@ -193,7 +197,12 @@ func (g *sesGen) step() {
 			proto = 3
 		}
 		b64 := r.rng.IntN(4) == 0
-		if r.rng.IntN(3) == 0 {
+		if g.rt && r.rng.IntN(2) == 0 {
+			ss := &gSess{ord: len(g.sess), transport: "webtransport", proto: 4, b64: false, conn: g.nconn, poll: -1, hsReq: -1, reqs: map[int]string{}}
+			g.nconn++
+			g.sess = append(g.sess, ss)
+			g.add("ses hs webtransport 4 0 -")
+		} else if r.rng.IntN(3) == 0 {
 			ss := &gSess{ord: len(g.sess), transport: "websocket", proto: proto, b64: b64, conn: g.nconn, poll: -1, hsReq: -1, reqs: map[int]string{}}
 			g.nconn++
 			g.sess = append(g.sess, ss)
@@ -332,7 +341,7 @@ func (g *sesGen) step() {
 		g.add("ses shutdown")
 	case c == 17 && r.rng.IntN(2) == 0:
 		ss := pick()
-		if ss.transport == "websocket" {
+		if ss.transport == "websocket" || ss.transport == "webtransport" {
 			ss.closeCause = true
 			g.add(fmt.Sprintf("ses drop %d", ss.conn))
 		} else if ss.pollPending {
@@ -343,6 +352,9 @@ func (g *sesGen) step() {
 		}
 	default:
 		d := []int{1, 5, 20, 50}[r.rng.IntN(4)]
+		if g.rt {
+			d = 1 + r.rng.IntN(10)
+		}
 		g.add(fmt.Sprintf("ses adv %d", d))
 		g.now += d
 	}
@@ -635,7 +647,7 @@ func monitorSession(r *Rec, g *sesGen, outs []string) {
 					sentOpen = append(sentOpen, m)
 				}
 			}
-			if len(v.received) != len(sentOpen) && (ss.transport == "websocket" || ss.polledAtEnd) {
+			if len(v.received) != len(sentOpen) && (ss.transport != "polling" || ss.polledAtEnd) {
 				r.Violate("C01", fmt.Sprintf("C01/not-delivered/%s/proto=%d/b64=%s%s", ss.transport, ss.proto, b01(ss.b64), v.undecodable),
 					fmt.Sprintf("s%d stayed open and its client kept reading, but only %d of %d messages arrived", ss.ord, len(v.received), len(sentOpen)), all)
 			}
